@@ -41,6 +41,13 @@ def main():
         jobs = jobs[:a.max_jobs]
     sys.stderr.write("%s: %d jobs (build %.1fs)\n" % (a.prop, len(jobs), build["timings"]["total"]))
     results = fw.run_jobs(lambda j: mod.run_job(j, build), jobs, a.procs)
+    if os.environ.get("VERIF_TIMING"):
+        agg = {}
+        for r in results:
+            k = ":".join(str(r["job"]).split(":")[:2])
+            agg[k] = agg.get(k, 0) + r["wall_s"]
+        for k, v in sorted(agg.items(), key=lambda kv: -kv[1])[:25]:
+            sys.stderr.write("  time %-40s %.1fs\n" % (k, v))
     out = fw.Outcome(a.prop)
     ev = mod.finish(results, jobs, build, out, a.tier, seed, time.time() - t0)
     rc = out.finish()
